@@ -52,6 +52,7 @@ def run(ctx):
     check_ws_identity(ctx)
     check_is_keyword_upper(ctx)
     check_newline_sensitivity(ctx)
+    check_ws_kind_lexing(ctx)
     # a pass that resumes from a stale index skips as many siblings as the grouping removed -- a number that depends on how many
     # whitespace tokens separated the operands, so the tree shape would depend on spacing
     ctx.rule('R11.8', 'index bookkeeping: after a grouping the hand-written passes resume at the index of the new group (whitespace count cannot shift the scan)', floor=7)
@@ -313,3 +314,34 @@ def check_newline_sensitivity(ctx):
                 ctx.ob('R11.7', key, f'{f.mod.relpath}:{x.lineno}', 'the parse path does not distinguish line breaks from other whitespace', False,
                        f'`{hit}` in {f.short}: replacing a line break by a blank (or the reverse) changes statement boundaries or the tree')
     ctx.ob('R11.7', 'inventory', 'sqlparse/engine/grouping.py', f'{n} newline-sensitive site(s) in the parse path examined', True)
+
+
+def check_ws_kind_lexing(ctx):
+    """Which whitespace separates two tokens must not matter to the lexer: for every ordered pair of token spellings the significant
+    tokens of `a b`, `a\\tb`, `a\\nb`, `a\\r\\nb` and `a  b` are the same (table evaluation).  A rule that reaches across whitespace
+    (string continuation over a line break, a keyword pair joined only over blanks) breaks that."""
+    import itertools
+    T = get_tables(ctx)
+    ctx.rule('R11.10', 'the kind of whitespace between two tokens does not change how they are lexed (all ordered pairs of token spellings, five separators)', floor=1)
+    atoms = ['a', 'desc', 'select', 'order', 'by', 'group', 'union', 'all', 'end', 'if', 'left', 'join', 'not', 'null', 'like', 'is', '1', '1.5', '.', '=', '<', '*', '/',
+             '-', '+', '(', ')', ',', ';', "'s'", '"n"', '`n`', '$1', ':p', '?', '@v', '[x]', '::', 'é', '$$x$$', 'create', 'or', 'replace', 'go', 'at', 'time', 'zone', '#']
+    seps = [' ', '\t', '\n', '\r\n', '  ']
+    kwloc = T.kwmod.relpath
+
+    def sig(text):
+        return [(repr(tt), ' '.join(v.upper().split()) if repr(tt).startswith(('Token.Keyword', 'Token.Operator')) else v) for tt, v, _ in T.lex_all(text) if v.strip() != '']
+    bad = {}
+    n = 0
+    for a, b in itertools.product(atoms, repeat=2):
+        base = sig(a + ' ' + b)
+        for sp in seps[1:]:
+            n += 1
+            got = sig(a + sp + b)
+            if got != base:
+                bad.setdefault(a if a == '#' else 'other', []).append(f'{a + " " + b!r} -> {[v for _, v in base]} but {a + sp + b!r} -> {[v for _, v in got]}')
+    hash_bad = bad.pop('#', [])
+    ctx.ob('R11.10', 'ws-kind:#', kwloc, '`#` followed by a blank is lexed like `#` followed by any other whitespace', not hash_bad,
+           f'{len(hash_bad)} pair(s), e.g. {hash_bad[:1]}: "# " opens a MySQL line comment, "#" followed by a tab or a line break is an operator')
+    other = bad.get('other', [])
+    ctx.ob('R11.10', 'ws-kind', kwloc, f'{n} (pair, separator) combinations over {len(atoms)} token spellings lex to the same significant tokens as with a single blank', not other,
+           f'{len(other)} combination(s), e.g. {other[:2]}: the token stream, and with it the parse tree, depends on the kind of whitespace')
